@@ -13,6 +13,7 @@ import (
 	"path"
 	"path/filepath"
 	"strings"
+	"sync"
 	"time"
 )
 
@@ -894,6 +895,9 @@ func HandleTranAgreed(cc *hotline.ClientConn, t *hotline.Transaction) (res []hot
 	return res
 }
 
+// messageBoardMu serializes reads and writes of the Server's MessageBoard, which is shared by all clients.
+var messageBoardMu sync.Mutex
+
 // HandleTranOldPostNews updates the flat news
 // Fields used in this request:
 // 101	Data
@@ -915,7 +919,9 @@ func HandleTranOldPostNews(cc *hotline.ClientConn, t *hotline.Transaction) (res 
 	newsPost := fmt.Sprintf(newsTemplate+"\r", cc.UserName, time.Now().Format(newsDateTemplate), t.GetField(hotline.FieldData).Data)
 	newsPost = strings.ReplaceAll(newsPost, "\n", "\r")
 
+	messageBoardMu.Lock()
 	_, err := cc.Server.MessageBoard.Write([]byte(newsPost))
+	messageBoardMu.Unlock()
 	if err != nil {
 		cc.Logger.Error("error writing news post", "err", err)
 		return nil
@@ -1252,9 +1258,13 @@ func HandleGetMsgs(cc *hotline.ClientConn, t *hotline.Transaction) (res []hotlin
 		return cc.NewErrReply(t, "You are not allowed to read news.")
 	}
 
+	// The message board has a single read cursor.  Rewinding and reading it must not overlap with another client
+	// doing the same, or with a post being added, or the reply holds a torn copy of the text.
+	messageBoardMu.Lock()
 	_, _ = cc.Server.MessageBoard.Seek(0, 0)
 
 	newsData, err := io.ReadAll(cc.Server.MessageBoard)
+	messageBoardMu.Unlock()
 	if err != nil {
 		cc.Logger.Error("Error reading messageboard", "err", err)
 	}
